@@ -7,6 +7,7 @@ import (
 	"sync"
 
 	"google.golang.org/grpc"
+	"google.golang.org/grpc/codes"
 	"google.golang.org/grpc/metadata"
 	"google.golang.org/grpc/status"
 	"google.golang.org/protobuf/proto"
@@ -27,6 +28,8 @@ type ClientServerStream struct {
 	closed     context.CancelFunc
 	closeErr   error
 	closedC    chan struct{} // closed by Close before ctx is cancelled: tells the end of the call from a caller that gave up
+
+	singleResponse bool // the call has one response (it is not server streaming): receiving it waits for the end of the call
 }
 
 func NewClientServerStream(ctx context.Context) *ClientServerStream {
@@ -134,6 +137,28 @@ func (c *clientStream) SendMsg(m any) error {
 }
 
 func (c *clientStream) RecvMsg(m any) error {
+	val, err := c.recv()
+	if err != nil {
+		return err
+	}
+	if err := permissiveProtoMerge(m.(proto.Message), val.(proto.Message)); err != nil {
+		return err
+	}
+	if c.singleResponse {
+		// as in gRPC: the one response of a call is good only if the call then ends well, so what the handler
+		// does after sending it (a trailer, an error) is known to the caller when this returns
+		switch _, err := c.recv(); err {
+		case io.EOF:
+		case nil:
+			return status.Error(codes.Internal, "cardinality violation: expected <EOF> for non server-streaming RPCs, but received another message")
+		default:
+			return err
+		}
+	}
+	return nil
+}
+
+func (c *clientStream) recv() (any, error) {
 	select {
 	case <-c.Context().Done():
 		// closeErr may or may not be available depending on why the context has ended
@@ -142,16 +167,16 @@ func (c *clientStream) RecvMsg(m any) error {
 		select {
 		case _, ok := <-c.serverSend:
 			if !ok {
-				return c.closeErrLocked()
+				return nil, c.closeErrLocked()
 			}
 		default:
 		}
-		return c.Context().Err()
+		return nil, c.Context().Err()
 	case val, ok := <-c.serverSend:
 		if !ok {
-			return c.closeErrLocked()
+			return nil, c.closeErrLocked()
 		}
-		return permissiveProtoMerge(m.(proto.Message), val.(proto.Message))
+		return val, nil
 	}
 }
 
